@@ -25,6 +25,13 @@ func (e *Engine) callNative(st *State, fr *Frame, name string, args []Value, pos
 }
 
 func (e *Engine) intrinsic2(st *State, fr *Frame, fn *ssa.Function, args []Value, pos token.Pos) ([]exit, bool) {
+	c := e.tc
+	switch fn.Name() {
+	case "verifValidDate":
+		y, m, d := args[0].(*Term), args[1].(*Term), args[2].(*Term)
+		rng := c.And(e.inRange(y, 0, 9999), e.inRange(m, 1, 12), e.inRange(d, 1, 31))
+		return retExit(st, c.And(rng, c.BVSle(d, e.daysIn(st, m, y)))), true
+	}
 	return nil, false
 }
 
